@@ -11,6 +11,9 @@ Leg C: oracle on the implementation's observations: after `reload` returned ever
        not) is delivered iff the NEW value accepts it and MAX_LEVEL is not below the new hint; an emission racing
        with reloads is judged by one of the values in play (old or new); a reload on a dropped collector returns
        Err(is_dropped) and changes nothing."""
+import os
+import sys
+
 import vlib
 from vlib import Report, coq_prove, cargo_build
 
@@ -185,6 +188,12 @@ def run(ctx):
         "the reloadable value's callbacks are pure functions of the value (register_callsite / enabled / max_level_hint read the cell once each)",
         "the collector has one reloadable cell; reload of a Filtered *layer* (documented restriction of Handle::reload) is not exercised",
         "forced schedules do not preempt while the cell's write lock is held (no yield point inside; the theorems do)"]
+    # ---- translator: the yield points of the modelled sources (static tie, proved equal to the model's in Sched_Points.v)
+    sys.path.insert(0, os.path.join(vlib.VERIF, "translators"))
+    import sched_points
+    text, unrec = sched_points.main(ctx.repo, None)
+    vlib.gen_if_changed(os.path.join(vlib.COQ, "gen", "Gen_sched_points.v"), text)
+    rep.tie("translator:Gen_sched_points", not unrec, "; ".join(unrec[:4]), unrec[:1] or None)
     rep.proof = coq_prove(ctx, "C12", ["theories/Properties/C12.vo"])
     ok, paths, log = cargo_build(ctx, "sched", ["h_sched"])
     if not ok:
